@@ -2,6 +2,7 @@ import CM.Ops.Core
 import CM.Ops.Recognize
 import CM.Ops.Check
 import CM.Ops.Walk
+import CM.Ops.Render
 namespace CM.Ops
 
 def echoOp : Op
@@ -14,6 +15,6 @@ def treeOp : Op
     | none => bad
   | _ => bad
 
-def allOps : List (String × Op) := [("echo", echoOp), ("tree", treeOp)] ++ recognizeOps ++ checkOps ++ walkOps
+def allOps : List (String × Op) := [("echo", echoOp), ("tree", treeOp)] ++ recognizeOps ++ checkOps ++ walkOps ++ renderOps
 
 end CM.Ops
